@@ -41,3 +41,26 @@ Theorem C17_cbor_parser_idle : forall cs s p' s', all_bytes (concat cs) = true -
   s_fail s = None -> p_writes cparser0 s cs = Ok (p', s', nilE) -> p' = cparser0.
 Proof. intros cs s p' s' H1 H2 H3 H4. exact (proj1 (C17_cbor_parser_idle_chunks cs s p' s' H1 H2 H3 H4)). Qed.
 Print Assumptions C17_cbor_parser_idle.
+
+(* Unfolder: a completed document is consumed exactly - for every target type, previous
+   content and following events - its result does not depend on what follows, and two
+   documents in sequence are processed as the first alone followed by the second. *)
+From SF Require Gotype.Types Gotype.Unfold Gotype.UnfoldProofs.
+Theorem C17_unfold_exact : forall tr fuel t old rest v r,
+  SF.Gotype.Unfold.uf fuel t old (flatten (SF.Core.AdapterProofs.expand_tree tr) ++ rest) = SF.Gotype.Unfold.UOk v r -> r = rest.
+Proof. exact SF.Gotype.UnfoldProofs.C17_exact. Qed.
+Print Assumptions C17_unfold_exact.
+
+Theorem C17_unfold_rest_independent : forall tr fuel t old rest1 v r,
+  SF.Gotype.Unfold.uf fuel t old (flatten (SF.Core.AdapterProofs.expand_tree tr) ++ rest1) = SF.Gotype.Unfold.UOk v r ->
+  forall fuel2 rest2, (fuel <= fuel2)%nat ->
+    SF.Gotype.Unfold.uf fuel2 t old (flatten (SF.Core.AdapterProofs.expand_tree tr) ++ rest2) = SF.Gotype.Unfold.UOk v rest2.
+Proof. exact SF.Gotype.UnfoldProofs.C17_rest_independent. Qed.
+Print Assumptions C17_unfold_rest_independent.
+
+Theorem C17_unfold_sequence : forall tr t old v,
+  SF.Gotype.Unfold.unfold_value t old (flatten tr) = SF.Gotype.Unfold.UDone v ->
+  forall evs2 fuel2, (S (S (length (flat_map expand (flatten tr)))) + SF.Gotype.Unfold.ftsize t <= fuel2)%nat ->
+    SF.Gotype.Unfold.uf fuel2 t old (flat_map expand (flatten tr ++ evs2)) = SF.Gotype.Unfold.UOk v (flat_map expand evs2).
+Proof. exact SF.Gotype.UnfoldProofs.C17_sequence. Qed.
+Print Assumptions C17_unfold_sequence.
